@@ -45,6 +45,22 @@ theorem trigger_ignores_case (cb : Callback) (h : cb.insensitive = true) (b b' :
     (hf : fold b = fold b') : trigger cb b = trigger cb b' := by
   simp [trigger, positive, forbidden, Callback.view, h, hf]
 
+/-- THE TRIGGER LOOKS AT THE FOLD OF THE WHOLE ACCUMULATED OUTPUT: for a case-insensitive callback
+(the `NewCallback` default) every comparison is made against `fold acc`, the lower-casing of the
+complete accumulation — not against any text assembled from separately folded reads. -/
+theorem trigger_on_whole_fold (cb : Callback) (h : cb.insensitive = true) (acc : Bytes) :
+    trigger cb acc =
+      (((!cb.contains.isEmpty && isInfix (fold cb.contains) (fold acc)) || (cb.hasRe && cb.re (fold acc))) &&
+        !(!cb.notContains.isEmpty && isInfix (fold cb.notContains) (fold acc))) := by
+  simp [trigger, positive, forbidden, Callback.view, Callback.containsB, Callback.notContainsB, h]
+
+/-- … and that matters: lower-casing is not compatible with cutting. `É` (C3 89) folds to `é`
+(C3 A9), but its two bytes folded separately give two U+FFFD, in which `é` does not occur. A loop
+that folded each read on its own would never see a trigger whose character straddles two reads. -/
+theorem fold_not_chunkwise :
+    fold [195, 137] = [195, 169] ∧ fold [195] ++ fold [137] = runeError ++ runeError ∧
+    isInfix [195, 169] (fold [195] ++ fold [137]) = false := by decide
+
 /-- a case-sensitive callback (struct literal without `Insensitive`) looks at the raw output -/
 theorem trigger_sensitive_raw (cb : Callback) (h : cb.insensitive = false) (b : Bytes) :
     trigger cb b = (((!cb.contains.isEmpty && isInfix cb.contains b) || (cb.hasRe && cb.re b)) &&
@@ -188,6 +204,40 @@ theorem first_fire_after_quiet_prefix (cbs : List Callback) (s : St) (pre post :
     | cont s' ev =>
       simp only [hst, StepRes.event] at hev
       rw [run_cont post hst, hev, hacc]; rfl
+
+/-- a quiet prefix can be merged with the arrival that follows it: the run is the one in which all
+those bytes came in a single read -/
+theorem quiet_prefix_merges (cbs : List Callback) (s : St) (pre post : List Arrival) (a : Arrival)
+    (ht : s.el + gaps pre < s.t) (hq : Quiet cbs s.acc pre) :
+    run check cbs s (pre ++ a :: post) =
+      run check cbs s (⟨gaps pre + a.gap, flat pre ++ a.data⟩ :: post) := by
+  rw [none_runs_without_trigger cbs s pre (a :: post) ht hq]
+  have hst : step check cbs (advance s pre) a = step check cbs s ⟨gaps pre + a.gap, flat pre ++ a.data⟩ :=
+    step_congr check cbs _ _ _ _ rfl rfl (by simp [advance, Nat.add_assoc])
+      (by simp [advance, List.append_assoc]) (by simp [advance, List.append_assoc])
+  simp only [run, hst]
+
+/-- `first_fire_segmentation_independent`: for a fixed accumulated text the outcome does not depend
+on how the device's bytes were cut into reads. Two histories that deliver the same bytes in the same
+time — cut anywhere, also inside a multi-byte character — and in which no trigger holds before the
+last read of that text, produce the same run: the same callback fires with the same argument, and
+everything after it is the same. -/
+theorem first_fire_segmentation_independent (cbs : List Callback) (s : St)
+    (pre1 pre2 post : List Arrival) (a1 a2 : Arrival)
+    (hbytes : flat pre1 ++ a1.data = flat pre2 ++ a2.data)
+    (htime : gaps pre1 + a1.gap = gaps pre2 + a2.gap)
+    (ht1 : s.el + gaps pre1 < s.t) (ht2 : s.el + gaps pre2 < s.t)
+    (hq1 : Quiet cbs s.acc pre1) (hq2 : Quiet cbs s.acc pre2) :
+    run check cbs s (pre1 ++ a1 :: post) = run check cbs s (pre2 ++ a2 :: post) := by
+  rw [quiet_prefix_merges cbs s pre1 post a1 ht1 hq1, quiet_prefix_merges cbs s pre2 post a2 ht2 hq2,
+    hbytes, htime]
+
+/-- in particular a text delivered in any quiet segmentation behaves as if it came in one read -/
+theorem segmentation_vs_single_read (cbs : List Callback) (s : St) (pre post : List Arrival) (a : Arrival)
+    (ht : s.el + gaps pre < s.t) (hq : Quiet cbs s.acc pre) :
+    (run check cbs s (pre ++ a :: post)).events.head? =
+      (run check cbs s (⟨gaps pre + a.gap, flat pre ++ a.data⟩ :: post)).events.head? := by
+  rw [quiet_prefix_merges cbs s pre post a ht hq]
 
 /-- every callback that runs anywhere in a run is the first in list order whose trigger holds on
 the argument it receives -/
@@ -421,6 +471,18 @@ example : trigger cbHello helloWorld = true ∧ trigger cbHello helloBadWorld = 
 
 /-- `HELLO` and `hello` fold alike (hypothesis of `trigger_ignores_case`) -/
 example : fold [72, 69, 76, 76, 79] = fold [104, 101, 108, 108, 111] := by decide
+
+/-- `café` / `CAFÉ` with the `É` cut between two reads: the prefix `CAF\xC3` is quiet, and the whole
+text triggers (hypotheses of `first_fire_segmentation_independent` for the two cuts `CAF\xC3|\x89` and
+`CA|F\xC3\x89`) -/
+def cbCafe : Callback :=
+  { cbHello with contains := [99, 97, 102, 195, 169], notContains := [] }
+
+example : Quiet [cbCafe] [] [⟨0, [67, 65, 70, 195]⟩] ∧ Quiet [cbCafe] [] [⟨0, [67, 65]⟩] ∧
+    flat [⟨0, [67, 65, 70, 195]⟩] ++ [137] = flat [⟨0, [67, 65]⟩] ++ [70, 195, 137] ∧
+    trigger cbCafe [67, 65, 70, 195, 137] = true := by
+  refine ⟨⟨?_, trivial⟩, ⟨?_, trivial⟩, by decide, by decide⟩ <;>
+    (intro cb hcb; simp at hcb; subst hcb; decide)
 
 /-- hypotheses of `first_triggered_runs` / `complete_ends_operation` hold for a concrete case -/
 example : (St.init [] 100).el + (Arrival.mk 3 helloWorld).gap < (St.init [] 100).t ∧
